@@ -264,3 +264,13 @@ Theorem py_vs_R_bound : forall p i,
   admissible p ->
   Rabs (sy_knot p 201 i - sy_knot_R p i) <= theta_s p * Rabs (1 - Fs p 200).
 Proof. intros p i. exact (py_vs_R_general p (Fs p) i). Qed.
+
+(** The bottom layer (j = 0, midpoint -995 mm) is saturated at every tabulated
+    level and never contributes: a loop starting at j = 1 computes the same
+    values (an equivalent mutant of the code, found by mutation testing). *)
+Theorem bottom_layer_zero : forall p Phi i,
+  admissible p -> (0 <= i)%Z -> layer p Phi i 0 = 0.
+Proof.
+  intros p Phi i (Hsd & Hth & Hb & Hps) Hi. apply layer_saturated.
+  unfold zm, zl, zu. assert (H0 : 0 <= IZR i) by (apply IZR_le; lia). lra.
+Qed.
